@@ -260,6 +260,8 @@ def decodeSrkRecord (b : Bytes) : Option SrkRecord :=
   match unpackInts AhabConsts.srkRecordLayout.intWidths b with
   | some [tag, len, alg, hsh, ks, _res, fl8] =>
     if tag ≠ AhabConsts.srkRecordTag ∨ !(AhabConsts.srkRecordVersions.contains alg) ∨ b.length < len then none else
+    -- `SIGN_ALGORITHM_ENUM.from_tag` / `HASH_ALGORITHM_ENUM.from_tag` of the version-1 record raise for unknown tags
+    if !(AhabConsts.signAlgV1.any (fun t => t.2.1 == alg)) ∨ !(AhabConsts.hashAlgV1.any (fun t => t.2.1 == hsh)) then none else
     match unpackInts [2, 2] (b.drop (intsLen AhabConsts.srkRecordLayout.intWidths)) with
     | some [l1, l2] =>
       if l1 + l2 + fl > len then none
@@ -472,13 +474,6 @@ def decodeIaes (l : AhabConsts.Layout) (b : Bytes) : Nat → Nat → Option (Lis
     | some e, some es => some (e :: es)
     | _, _ => none
 
-/-- an updated container: every entry with its bytes, absolute offset, and the IAE that is exported -/
-structure Placed where
-  ready : Ready
-  offset : Nat            -- absolute offset in the AHAB image
-  iae : Iae
-  deriving Repr, DecidableEq
-
 /-- `AHABContainer.export()` = header ‖ image array ‖ signature block
     (the bytearray slice assignments of the source reduce to a concatenation because the header part is 8-byte aligned) -/
 def exportContainerWith (v : Ver) (c : Container) (iaes : List Iae) : PyRes Bytes :=
@@ -507,19 +502,30 @@ structure Image where
   containers : List Container
   deriving Repr
 
-/-- one step of the offset loop of `AHABImage.update_fields` (containers built from a configuration are unlocked):
-    returns the offset of this image and the cursor for the next one -/
-def assignStep (ch : Chip) (v : Ver) (cursor : Nat) (explicit size gap flags : Nat) : Nat × Nat :=
-  let off := if explicit > 0 then explicit else cursor
-  (off, validOffset ch v flags (off + size + gap))
+/-- an updated entry: configuration, bytes, absolute offset in the AHAB image, and the IAE that is exported -/
+structure Placed where
+  entry : Entry
+  ready : Ready
+  offset : Nat
+  iae : Iae
+  deriving Repr, DecidableEq
 
-/-- offsets of the images of one container, threading the cursor -/
-def assignEntries (ch : Chip) (v : Ver) : Nat → List (Entry × Ready) → List Nat × Nat
+def mkIae (base off : Nat) (e : Entry) (r : Ready) : Iae :=
+  ⟨off - base, r.size, e.loadAddress, e.entryPoint, e.flags, e.metaData, r.hash, r.iv⟩
+
+/-- the cursor after an image at `off`: `get_valid_offset(offset + image_size + gap_after_image)` -/
+def nextCursor (ch : Chip) (v : Ver) (e : Entry) (r : Ready) (off : Nat) : Nat :=
+  validOffset ch v e.flags (off + r.size + e.gapAfter)
+
+/-- the offset loop of `AHABImage.update_fields` over the images of one container (containers built from a
+    configuration are unlocked): an explicit offset (> 0) is kept, otherwise the cursor is taken; returns the placed
+    images and the cursor for the next container -/
+def placeEntries (ch : Chip) (v : Ver) (base : Nat) : Nat → List (Entry × Ready) → List Placed × Nat
   | cur, [] => ([], cur)
   | cur, (e, r) :: rest =>
-    let (off, cur') := assignStep ch v cur e.offset r.size e.gapAfter e.flags
-    let (offs, cur'') := assignEntries ch v cur' rest
-    (off :: offs, cur'')
+    let off := if e.offset > 0 then e.offset else cur
+    let res := placeEntries ch v base (nextCursor ch v e r off) rest
+    (⟨e, r, off, mkIae base off e r⟩ :: res.1, res.2)
 
 def readyEntries (c : CryptoOps) (ch : Chip) (v : Ver) (dek : Option Bytes) : List Entry → PyRes (List Ready)
   | [] => .ok []
@@ -537,21 +543,15 @@ structure UContainer where
   placed : List Placed
   deriving Repr
 
-def mkPlaced (base : Nat) : List (Entry × Ready) → List Nat → List Placed
-  | (e, r) :: es, o :: os =>
-    ⟨r, o, ⟨o - base, r.size, e.loadAddress, e.entryPoint, e.flags, e.metaData, r.hash, r.iv⟩⟩ :: mkPlaced base es os
-  | _, _ => []
-
 /-- `AHABImage.update_fields()` without the signing step (signatures are inputs of the model) -/
 def updateContainers (c : CryptoOps) (ch : Chip) (v : Ver) : Nat → Nat → List Container → PyRes (List UContainer)
   | _, _, [] => .ok []
   | ix, cur, ct :: rest =>
     match v.containerOffset ix, readyEntries c ch v (if ct.sb.blob.isSome then ct.dek else none) ct.entries with
     | .ok base, .ok rs =>
-      let ers := ct.entries.zip rs
-      let (offs, cur') := assignEntries ch v cur ers
-      match updateContainers c ch v (ix + 1) cur' rest with
-      | .ok us => .ok (⟨ix, base, ct, mkPlaced base ers offs⟩ :: us)
+      let res := placeEntries ch v base cur (ct.entries.zip rs)
+      match updateContainers c ch v (ix + 1) res.2 rest with
+      | .ok us => .ok (⟨ix, base, ct, res.1⟩ :: us)
       | .error e => .error e
     | .error e, _ => .error e
     | _, .error e => .error e
@@ -598,8 +598,8 @@ def exportAll (v : Ver) : List UContainer → PyRes (List Bytes)
     | .error e, _ => .error e
     | _, .error e => .error e
 
-/-- `AHABImage.update_fields(); AHABImage.export()` on an image whose verifier is clean
-    (`export()` refuses an image with verifier errors; that decision is Model/AhabVerify + the oracle) -/
+/-- `AHABImage.update_fields(); AHABImage.export()`; of the verifier run at the start of `export()` only the
+    geometric record ("Image overlapping") is part of this function - the other records are Model/AhabVerify + the oracle -/
 def Image.export (c : CryptoOps) (img : Image) : PyRes Bytes :=
   match img.update c with
   | .error e => .error e
@@ -607,6 +607,11 @@ def Image.export (c : CryptoOps) (img : Image) : PyRes Bytes :=
     if !offsetsOk us then .error .other else
     match exportAll img.ver us with
     | .error e => .error e
-    | .ok cbytes => (imageInfo img.chip img.ver us cbytes).export
+    | .ok cbytes =>
+      let tree := imageInfo img.chip img.ver us cbytes
+      -- `export()` starts with `verify().validate()`; its geometric record is `image_info().validate()`
+      match tree.validate with
+      | .error _ => .error .spsdk
+      | .ok () => tree.export
 
 end SpsdkVerif.Ahab
